@@ -4,6 +4,7 @@
 //
 //	{"k":"arr","m":"slice","recv":[E...],"args":[E...],"cb":""}      array method
 //	{"k":"arr","m":"map","recv":[...],"args":[],"cb":"pair"}          callback method (named closure)
+//	{"k":"seq","recv":[...],"calls":[{"m":..,"args":[..],"cb":..},...]}  calls in sequence on ONE receiver
 //	{"k":"prop","recv":[...]}                                          ->length property
 //	{"k":"str","m":"substring","srecv":"hello","args":[E...]}         string method
 //	{"k":"table"}                                                      method table by reflection
@@ -27,7 +28,14 @@ import (
 	"github.com/php-any/origami/node"
 )
 
+type Call struct {
+	M    string            `json:"m"`
+	Args []json.RawMessage `json:"args"`
+	Cb   string            `json:"cb"`
+}
+
 type Case struct {
+	Calls []Call            `json:"calls"`
 	K     string            `json:"k"`
 	M     string            `json:"m"`
 	Recv  []json.RawMessage `json:"recv"`
@@ -42,6 +50,7 @@ type Obs struct {
 	After interface{} `json:"after,omitempty"`
 	Msg   string      `json:"msg,omitempty"`
 	Table interface{} `json:"table,omitempty"`
+	Steps []Obs       `json:"steps,omitempty"`
 }
 
 var (
@@ -207,6 +216,40 @@ func runCase(c Case) (o Obs) {
 		}
 		g, ctl := node.NewObjectMethod(from, recv, c.M, args).GetValue(ctx)
 		return finish(recv, g, ctl)
+	case "seq":
+		// several calls on ONE receiver object (its slot list keeps its history: spare capacity
+		// after push/pop/splice, reordered backing array after sort/reverse, ...)
+		vs := make([]data.Value, len(c.Recv))
+		for i, r := range c.Recv {
+			vs[i] = dec(r)
+		}
+		recv := data.NewArrayValue(vs).(*data.ArrayValue)
+		res := Obs{Out: "seq"}
+		for _, call := range c.Calls {
+			call := call
+			step := func() (o Obs) {
+				defer func() {
+					if r := recover(); r != nil {
+						o = Obs{Out: "panic", Msg: fmt.Sprint(r), After: enc(recv)}
+					}
+				}()
+				var args []data.GetValue
+				if call.Cb != "" {
+					f, ok := cbs[call.Cb]
+					if !ok {
+						return Obs{Out: "panic", Msg: "no callback " + call.Cb}
+					}
+					args = append(args, f)
+				}
+				for _, a := range call.Args {
+					args = append(args, dec(a))
+				}
+				g, ctl := node.NewObjectMethod(from, recv, call.M, args).GetValue(ctx)
+				return finish(recv, g, ctl)
+			}()
+			res.Steps = append(res.Steps, step)
+		}
+		return res
 	case "prop":
 		vs := make([]data.Value, len(c.Recv))
 		for i, r := range c.Recv {
